@@ -175,6 +175,50 @@ def shard(arg):
     return p
 
 
+HISTORY = [
+    "{{ x|upper|trim }}{% if x is odd %}{{ y|length }}{% endif %}",
+    "{{ a|lower|title|e }}{% if a is even and b is string %}{{ b|abs }}{% endif %}{% block k %}{{ c|first|last }}{% endblock %}",
+    "{% macro m(v) %}{{ v|join(',')|default('d') }}{% endmacro %}{{ m(x) }}{% for i in x|sort|reverse if i is divisibleby(2) %}{{ i|int }}{% endfor %}",
+    "{% trans n=k|length %}{{ n }} a{% pluralize %}{{ n }} b{% endtrans %}{{ q|safe|striptags }}",
+    "{% block a %}{{ x|capitalize }}{% endblock %}{% block b %}{{ y|center(5) }}{% if y is mapping %}{{ y|dictsort }}{% endif %}{% endblock %}",
+    "{% from 'm' import f1, f2 %}{% set p, q = f1(), f2() %}{{ p|string }}{{ q is none }}",
+]
+
+
+def history_shard(arg):
+    """the source of a template does not depend on what was compiled before it in the process: compile A, then every
+    other template (one or two of them, in every order), then A again, in the same and in another environment"""
+    import itertools
+
+    i = arg
+    p = core.Part()
+    for ename, env in envs():
+        a = HISTORY[i]
+        first = env.compile(a, name="t", filename="t.html", raw=True)
+        others = [h for j, h in enumerate(HISTORY) if j != i]
+        for k in (1, 2):
+            for between in itertools.permutations(others, k):
+                for b in between:
+                    env.compile(b, name="u", filename="u.html", raw=True)
+                for env2name, env2 in ((ename, env), ("fresh-" + ename, dict(envs())[ename])):
+                    again = env2.compile(a, name="t", filename="t.html", raw=True)
+                    p.evals += 1
+                    if again != first:
+                        diff = [(x, y) for x, y in zip(first.splitlines(), again.splitlines()) if x != y][:2]
+                        p.violation("C30/history-dependent-source/" + _construct(a), {
+                            "msg": f"{a!r} [{env2name}] compiles differently after compiling {list(between)!r}: {diff} "
+                                   f"(lines {len(first.splitlines())} -> {len(again.splitlines())})",
+                            "script": "import jinja2\ne=jinja2.Environment(extensions=['jinja2.ext.i18n'])\na=%r\ns1=e.compile(a,raw=True)\n"
+                                      "for b in %r: e.compile(b,raw=True)\nprint(s1==e.compile(a,raw=True))\n" % (a, list(between))})
+        p.sig(("history", i, ename))
+    p.sample({"part": "compile history", "template": HISTORY[i]}, cap=1)
+    return p
+
+
+def dispatch(arg):
+    return history_shard(arg[1]) if arg[0] == "h" else shard(arg[1])
+
+
 def _construct(src):
     for k in ("trans", "from", "import", "macro", "call", "for", "if", "with", "block", "set"):
         if "{% " + k in src:
@@ -221,7 +265,7 @@ def run(ctx: core.Ctx):
                         "PYTHONHASHSEED subprocesses are a non-exhaustive cross-check of the un-owned remainder"]
     extra = corpus_sources()
     fam = FAMILY + (more_templates() if not ctx.quick else more_templates()[:100]) + extra
-    ctx.pmap(shard, [(i, s, bound if i < len(FAMILY) else 1) for i, s in enumerate(fam)])
+    ctx.pmap(dispatch, [("s", (i, s, bound if i < len(FAMILY) else 1)) for i, s in enumerate(fam)] + [("h", i) for i in range(len(HISTORY))])
     ctx.cov["bounds"] = {"deviation_bound": bound, "family": len(FAMILY), "generator_programs": len(fam) - len(FAMILY) - len(extra), "corpus_sources": len(extra)}
     # real hash seeds (cross-check)
     results = {}
